@@ -489,6 +489,13 @@ func w3Variants() []*w3Variant {
 		o, ad := w.nnsState("c03.neofs")
 		return &w3Call{Args: a, Princ: pr, Owner: o, Admin: ad}
 	})
+	add("nns", "register", 7, "fourth level under sub.c03.neofs (zone owners differ)", func(w *w3World, i int) *w3Call {
+		U := w.princ("U")
+		a := withSOA(fmt.Sprintf("a%d.sub.c03.neofs", i), U.Hash)
+		pr := w3np(len(a))
+		pr[1] = U
+		return &w3Call{Args: a, Princ: pr, Related: []*w3Princ{w.princ("O"), w.princ("A")}}
+	})
 	add("nns", "registerTLD", 6, "", simple(func(w *w3World, i int) []any { return withSOA(fmt.Sprintf("tld%d", i)) }))
 	add("nns", "setPrice", 1, "", simple(func(w *w3World, i int) []any { return []any{int64(10_0000_0000 + i)} }))
 	add("nns", "setAdmin", 2, "new admin A", func(w *w3World, i int) *w3Call {
